@@ -11,7 +11,7 @@ from common import lean_driver
 
 LEVEL = 'proof'
 
-TOKS = ['-m', '--', '-l', '-v', '-o', 'x', 'mod', '-p', '--view', '-b', 'a=b', '-z', '-h', '--help', '--line-profile', '--pro', '--out']
+TOKS = ['-m', '--', '-l', '-v', '-o', 'x', 'mod', '-p', '--view', '-b', 'a=b', '-z', '-h', '--help', '--line-profile', '--pro', '--out', '', 'a b']     # the empty string and a token with a space are arguments like any other
 # (prefix, line_by_line, view, outfile or None)
 PREFIXES = [
     ([], False, False, None), (['-l'], True, False, None), (['-b'], False, False, None), (['-l', '-v'], True, True, None),
@@ -24,6 +24,10 @@ PREFIXES = [
     (['-u', '1e-6', '-l'], True, False, None), (['-l', '--unit', '0.5', '-v'], True, True, None),
     (['-r', '-l'], True, False, None),
 ]
+
+
+def enc(toks):
+    return ' '.join('%e' if t == '' else t.replace(' ', '%20') for t in toks)
 
 
 def shapes(prefix, r):
@@ -62,7 +66,7 @@ def run(ctx):
     results = corelib.run_real(build, [c[1] for c in cases] + malformed, worker='c15_worker.py')
     model = None
     if getattr(ctx, 'driver_ok', True):
-        model = lean_driver('argv', ['parse ' + ' '.join(c[1]) for c in cases] + ['parse ' + ' '.join(m) for m in malformed])
+        model = lean_driver('argv', ['parse ' + enc(c[1]) for c in cases] + ['parse ' + enc(m) for m in malformed])
     kdiff = 0
     dist = {}
     nontrivial = set()
@@ -86,11 +90,11 @@ def run(ctx):
                      {'finding_class': cls, 'shape': shape, 'args': args, 'expected_argv_tail': rest,
                       'expected': {'file': exp_file, 'kind': exp_kind, 'viewed': view}, 'real': r})
         if model is not None:
-            exp_model = 'ok %s %s %s %d %d | %s' % ('module' if shape == 'module' else 'script', target, exp_file, lbl, view, ' '.join(rest))
+            exp_model = 'ok %s %s %s %d %d | %s' % ('module' if shape == 'module' else 'script', target, exp_file, lbl, view, enc(rest))
             real_as_model = None
             if r['status'] == 'ok' and r['argv'] is not None and len(r['files']) == 1:
                 real_as_model = 'ok %s %s %s %d %d | %s' % ('module' if shape == 'module' else 'script', r['argv'][0] if shape != 'module' else target,
-                                                          r['files'][0], r['kinds'][0] == 'lprof', r['viewed'], ' '.join(r['argv'][1:]))
+                                                          r['files'][0], r['kinds'][0] == 'lprof', r['viewed'], enc(r['argv'][1:]))
             if r['status'] == 'exit2' and r.get('ambiguous') and r['argv'] is None and model[i].startswith('err ambiguous'):
                 pass            # model and code agree on the recorded finding F-C15a (argparse's ambiguity check)
             elif model[i].strip() != (real_as_model or '').strip():
@@ -124,5 +128,5 @@ def replay(ctx, path):
     data = json.load(open(path))
     args = data['witness']['args']
     print(json.dumps(corelib.run_real(ctx.build(), [args], worker='c15_worker.py')[0]))
-    print(lean_driver('argv', ['parse ' + ' '.join(args)]))
+    print(lean_driver('argv', ['parse ' + enc(args)]))
     return 0
